@@ -23,4 +23,4 @@ INIT MCInit
 NEXT MCNext
 CHECK_DEADLOCK FALSE
 VIEW View
-INVARIANTS C07_MergedOnce C07_NoneSkipped C07_SameDecision C07_SameConfiguration
+INVARIANTS C07_MergedOnce C07_NoneSkipped C07_SameDecision C07_SameConfiguration Cover
